@@ -11,6 +11,7 @@ import (
 	"go.lsp.dev/uri"
 
 	"github.com/juev/hledger-lsp/internal/analyzer"
+	"github.com/juev/hledger-lsp/internal/ast"
 	"github.com/juev/hledger-lsp/internal/cli"
 	"github.com/juev/hledger-lsp/internal/formatter"
 	"github.com/juev/hledger-lsp/internal/include"
@@ -309,7 +310,7 @@ func (s *Server) publishDiagnosticsFor(ctx context.Context, docURI protocol.Docu
 	}
 	resolved, loadErrors := s.loader.LoadFromContent(path, content)
 
-	diagnostics := s.analyze(content)
+	diagnostics := s.analyze(content, resolved)
 
 	for _, err := range loadErrors {
 		severity := protocol.DiagnosticSeverityError
@@ -342,7 +343,7 @@ func (s *Server) publishDiagnosticsFor(ctx context.Context, docURI protocol.Docu
 	})
 }
 
-func (s *Server) analyze(content string) []protocol.Diagnostic {
+func (s *Server) analyze(content string, resolved *include.ResolvedJournal) []protocol.Diagnostic {
 	journal, parseErrs := parser.Parse(content)
 
 	diagnostics := make([]protocol.Diagnostic, 0, len(parseErrs))
@@ -369,6 +370,7 @@ func (s *Server) analyze(content string) []protocol.Diagnostic {
 		external.Accounts = s.workspace.GetDeclaredAccounts()
 		external.Commodities = s.workspace.GetDeclaredCommodities()
 	}
+	external = withIncludedDeclarations(external, resolved)
 
 	var result *analyzer.AnalysisResult
 	if external.Accounts != nil || external.Commodities != nil {
@@ -401,6 +403,38 @@ func (s *Server) analyze(content string) []protocol.Diagnostic {
 	}
 
 	return diagnostics
+}
+
+// withIncludedDeclarations adds the accounts and commodities declared in the
+// files of the document's own include tree, so that declarations in included
+// files count whether or not the document belongs to a workspace. The maps in
+// external may be shared with the workspace and are never modified.
+func withIncludedDeclarations(external analyzer.ExternalDeclarations, resolved *include.ResolvedJournal) analyzer.ExternalDeclarations {
+	if resolved == nil || len(resolved.Files) == 0 {
+		return external
+	}
+	accounts := make(map[string]bool, len(external.Accounts))
+	for name := range external.Accounts {
+		accounts[name] = true
+	}
+	commodities := make(map[string]bool, len(external.Commodities))
+	for symbol := range external.Commodities {
+		commodities[symbol] = true
+	}
+	for _, journal := range resolved.Files {
+		if journal == nil {
+			continue
+		}
+		for _, dir := range journal.Directives {
+			switch d := dir.(type) {
+			case ast.AccountDirective:
+				accounts[d.Account.Name] = true
+			case ast.CommodityDirective:
+				commodities[d.Commodity.Symbol] = true
+			}
+		}
+	}
+	return analyzer.ExternalDeclarations{Accounts: accounts, Commodities: commodities}
 }
 
 func (s *Server) shouldIncludeDiagnostic(code string, settings diagnosticsSettings) bool {
